@@ -89,6 +89,16 @@ def proj_check(case):
     if exc is not None:
         return viol("partial form raised: " + exc_text(exc), site=fn.__name__ + ":exception")
     V = np.asarray(V)
+    # the flag given as 1 / numpy bool (the docstring speaks of a "default value of 0") must select the same form, 0 the full projector
+    # (added after seeded change C18-10: `partial is True`)
+    for flag, want in ((1, V), (np.bool_(True), V), (0, full), (np.bool_(False), full)):
+        alt, exc = call(fn, d, p, flag)
+        if exc is not None:
+            return viol(f"partial={flag!r} raised: " + exc_text(exc), site=fn.__name__ + ":exception")
+        alt = np.asarray(alt)
+        if alt.shape != np.asarray(want).shape or np.abs(alt - want).max(initial=0.0) > 1e-9:
+            return viol(f"partial={flag!r} ({type(flag).__name__}) does not give the same result as partial={bool(flag)}",
+                        site=fn.__name__ + ":partial_flag", observed=list(alt.shape), expected=list(np.asarray(want).shape))
     if V.ndim != 2 or V.shape[0] != n or V.shape[1] != rank:
         return viol(f"partial form has shape {V.shape}, expected ({n}, {rank}) (columns = orthonormal basis of the subspace)",
                     site=site, observed=list(V.shape), expected=[n, rank])
@@ -107,13 +117,19 @@ def sign_cases(tier, seed):
         for perm in itertools.permutations(range(1, n + 1)):
             for form in ("list", "ndarray"):
                 yield {"perm": list(perm), "form": form}
+            if n <= 5:
+                # other container / dtype forms of the same permutation (unsigned and narrow integer arrays were added after seeded
+                # change C18-9, whose pairwise differences wrapped around in the caller's unsigned dtype)
+                for form in ("tuple", "uint8", "uint64", "int8"):
+                    yield {"perm": list(perm), "form": form}
 
 
 def sign_check(case):
     from toqito.perms import perm_sign
 
     perm = case["perm"]
-    arg = list(perm) if case["form"] == "list" else np.array(perm)
+    form = case["form"]
+    arg = list(perm) if form == "list" else tuple(perm) if form == "tuple" else np.array(perm) if form == "ndarray" else np.array(perm, dtype=form)
     got, exc = call(perm_sign, arg)
     if exc is not None:
         return viol("perm_sign raised: " + exc_text(exc), site="perm_sign:exception")
